@@ -20,11 +20,13 @@ PROPS = {
     "C02": dict(l1_ops=["exp", "hat"], l2="C02", n_l1=(400, 8000), n_l2=(600, 20000)),
     "C03": dict(l1_ops=["log", "exp"], l2="C03", n_l1=(400, 8000), n_l2=(800, 20000)),
     "C05": dict(l1_ops=["exp", "log", "inverse", "compose", "between", "rplus", "lplus", "rminus",
-                        "lminus", "act"], l2="C05", n_l1=(120, 2500), n_l2=(40, 800), l1_masks=True),
+                        "lminus", "act"], l2="C05", n_l1=(120, 2500), n_l2=(40, 800), l1_masks=True,
+                ),
     "C06": dict(l1_ops=["rjac", "ljac", "rjacinv", "ljacinv", "smallAdj", "adj"], l2="C06",
                 n_l1=(300, 6000), n_l2=(240, 6000)),
 }
 
+PROPS["C05"]["groups_l1"] = MODELLED + ["B:SE2,SO3,R2", "B:SE_2_3,R1,SE2", "B:R1,SGal3,SO2"]
 PROPS["C04"] = dict(l1_ops=["rplus", "lplus", "rminus", "lminus", "between"] + l1.ALIASES, l2="C04",
                     n_l1=(900, 12000), n_l2=(400, 12000), l1_masks=True)
 PROPS["C15"] = dict(l1_ops=[], l1_algo=["interp_slerp", "interp_cubic", "interp_smooth", "phi"], l2_algo="C15",
@@ -108,6 +110,18 @@ def case_from_request(pid, line, r):
                 gen.req(dbg, "o", group, "rminus", 0, Y + X), gen.req(dbg, "o", group, "lminus", 0, Y + X),
                 gen.req(dbg, "o", group, "between", 0, X + Y)]
         return dict(prop=pid, group=group, kind="c04", stage2="c04", reqs=reqs, tags=tags, X=X, Y=Y, t=tt)
+    if pid == "C16" and op.startswith("avg") and len(a) > R:
+        pts = [a[1 + i * R:1 + (i + 1) * R] for i in range((len(a) - 1) // R)]      # a[0] is the stopping tolerance
+        Z = gen.element(r, group, norm="exact", lin_only=["zero", "unit"])[0]
+        perm = list(range(len(pts)))
+        r.shuffle(perm)
+        reqs = [gen.req(dbg, "o", group, "compose", 0, Z + p_) for p_ in pts] + [gen.req(dbg, "o", group, "compose", 0, p_ + Z) for p_ in pts]
+        return dict(prop=pid, group=group, kind="c16", stage2="c16", reqs=reqs, n=len(pts), pts=pts, Z=Z, perm=perm,
+                    ops=["avg_bi", "avg_w", "avg_fl", "avg_fr"], eps=gen.EPS, identical=all(p_ == pts[0] for p_ in pts), tags=tags)
+    if pid == "C05" and op in l1.MASKS and group.startswith("B:"):
+        # a bundle's Jacobian is the derivative iff it is the elements' Jacobians on the diagonal blocks and
+        # exactly zero elsewhere (the elements do not interact); the elements themselves are judged separately
+        return l2.c11_case_at(pid, group, op, a, int(t[4]), tags)
     if pid == "C05" and op in l1.MASKS:
         c = dict(prop=pid, group=group, kind="c05", op=op, tags=tags)
         full = 3 if l1.MASKS[op] == 4 else 1
